@@ -2,7 +2,7 @@
    Leaf level (proved here): the one valid value the number handler emits satisfies every assertion it read.
    The composition with the graph theorems (C03 label => only valid leaves applied) and with the
    normaliser is tied by the correspondence streams N / J and the validator oracle; see DESIGN.md. *)
-From Fences Require Import JsonGen JsonLeaves.
+From Fences Require Import JsonGen JsonLeaves JsonEnum.
 From Coq Require Import ZArith.
 Local Open Scope Z_scope.
 
@@ -25,3 +25,15 @@ Proof.
   - intros hi E. inversion E. lia.
   - intros m E _. inversion E. exists (-4). reflexivity.
 Qed.
+
+(* enum / const: every value that becomes a valid leaf is a member of the enum *)
+Theorem C01_enum_leaf : forall ne en v, In v (enum_valid ne en) -> In v en.
+Proof. exact enum_valid_member. Qed.
+Print Assumptions C01_enum_leaf.
+
+(* strings: the one string emitted satisfies both length bounds whenever parse_string accepts them *)
+Theorem C01_string_leaf : forall (mn : nat) (mx : option Z),
+  (match mx with Some m => Z.ltb m (Z.of_nat mn) | None => false end) = false ->
+  (mn <= length (repeat 120%nat mn))%nat /\ forall m, mx = Some m -> Z.of_nat (length (repeat 120%nat mn)) <= m.
+Proof. exact string_valid_ok. Qed.
+Print Assumptions C01_string_leaf.
